@@ -166,8 +166,12 @@ class Engine(ExprMixin, CallMixin, StmtMixin, Core):
                 res = o.val if o.kind == "return" else S.NONEV()
                 if t.result is not None and res is not None:
                     c = self.coerce(res, t.result)
-                    if c is None and t.result == BOOL:
+                    if c is None and t.result == BOOL and res.s != NONE:
                         c = S.truthy(res)      # declared Bool: only the truth value of the result is specified
+                    if c is None and res.s == NONE and not isinstance(t.result, Opt):
+                        self.emit("ensures", self.func.end_lineno, o.st, S.FALSE, tag="result-type",
+                                  info="returns None where the contract declares %s" % t.result)
+                        c = self.fresh(t.result, "badresult", o.st)
                     if c is None:
                         raise EngineError("return value %s does not fit declared result %s" % (res.s, t.result))
                     res = c
@@ -259,6 +263,17 @@ class Engine(ExprMixin, CallMixin, StmtMixin, Core):
     def find_block(self, body, block):
         """Statement range [first..last] of the function body located by line-pattern anchors."""
         import re
+        if isinstance(block, dict):
+            # innermost statement of the given type whose source contains the pattern
+            best = None
+            for n in self._walk_body(self.func):
+                if isinstance(n, ast.stmt) and type(n).__name__ == block["stmt"]:
+                    seg = "\n".join(self.lines[n.lineno - 1:n.end_lineno])
+                    if re.search(block["contains"], seg) and (best is None or (n.end_lineno - n.lineno) < (best.end_lineno - best.lineno)):
+                        best = n
+            if best is None:
+                raise SpecDrift("no %s statement containing %r in %s" % (block["stmt"], block["contains"], self.target.qualname))
+            return [best]
         first_re, last_re = block
         stmts = list(self._walk_body(self.func))
         first = None
